@@ -460,8 +460,9 @@ func (c *Collection) DeleteWithXattrs(ctx context.Context, key string, xattrKeys
 		} else if e.xattrs, err = removeXattrs(e.xattrs, xattrKeys...); err != nil {
 			return nil, err
 		}
+		e.xattrs = processXattrs(e.xattrs, removeUserXattrs) // user xattrs never survive a deletion
 		e.revSeqNo++
-		_, err = txn.Exec(`UPDATE documents SET value=null, xattrs=?1, cas=?2, revSeqNo=?3 WHERE collection=?4 AND key=?5`, e.xattrs, newCas, e.revSeqNo, c.id, key)
+		_, err = txn.Exec(`UPDATE documents SET value=null, isJSON=0, exp=0, tombstone=1, xattrs=?1, cas=?2, revSeqNo=?3 WHERE collection=?4 AND key=?5`, e.xattrs, newCas, e.revSeqNo, c.id, key)
 		return e, err
 	})
 	return err
